@@ -55,6 +55,11 @@ CLAIMED = {
          "The step-by-step TLA+ transcription of rowReduceForInverse is model-checked on every n x n matrix over tiny fields (every pivot position, swap pattern and late singularity) against the truth layer (determinant, kernel vectors, products); the same Matrix module instantiated at GF(2^16) judges recorded calls of the real Inverse / RowReduceForInverse / Times on random, Vandermonde, Cauchy, permutation, triangular, swap-at-every-pivot, rank-deficient (first/middle/last pivot) and low-rank matrices: a result is accepted only if TLC's own product gives the identity (full for n<=40, Freivalds above), an error only with a kernel vector TLC verifies, and for n<=12 the result must equal the transcribed algorithm's.",
          "Freivalds probes above n=40 (error 2^-48); certificates are untrusted inputs verified by TLC.",
          "DESIGN.md section 5 C11"),
+ "C09": ("model_checking",
+         "Kernels.tla decomposition model checked by TLC for all lengths/paths; real kernels on all dispatch paths driven through the build-tagged hook with guard-paged, canary-bracketed buffers; every output word judged by TLC against GF!Mul; fault/canary flags observed; constant x word closure sweep",
+         "TLC checks that the dispatch/decomposition model (portable loop, scalar assembly with its word count, SSSE3 blocks + scalar tail) tiles every buffer exactly for all even lengths up to 512 and around 2^16/2^17; the real kernels are then driven on every path - portable Go in byte and word form, scalar assembly, SSSE3 assembly, and the exported functions with the dispatch flag forced both ways - for mul and muladd, every even length 0..320 and lengths around 64 KiB and 128 KiB, seeded source/destination offsets, constants including 0, 1, 2, 3, 0x8000, 0xFFFF, on mmapped buffers that end or start flush against inaccessible pages with canaries; TLC judges every output word with the definitional field product and asserts the observed no-fault, canary-intact and input-unchanged flags; a sweep over constants x all 65536 word values per path nominates any mismatch to TLC.",
+         "Memory safety is observed by instrumentation (guard pages, canaries), not derived by the model; windows + T.Times comparison for buffers over 4 KiB; only amd64 with SSSE3 can drive all three paths.",
+         "DESIGN.md section 5 C09"),
 }
 
 NOT_YET = "check under construction in this round; not claimed until it runs green on the unchanged tree"
